@@ -37,32 +37,6 @@ class ModelledTypeError(TypeError, ModelledError):
     pass
 
 
-_WD = {'pid': None, 'deadline': None, 'ctx': None}
-
-
-def _watchdog_loop():
-    import time
-    lib = z3.z3core.lib()
-    while True:
-        time.sleep(0.25)
-        d = _WD['deadline']
-        if d is not None and time.time() > d:
-            _WD['deadline'] = None
-            lib.Z3_interrupt(_WD['ctx'])     # a late interrupt hits no query or the next one: 'unknown', which only adds paths / obligations
-
-
-def _watchdog_arm(ctx_ref, seconds):
-    import os
-    import threading
-    import time
-    if _WD['pid'] != os.getpid():            # threads do not survive fork: one watchdog per process, started on first use
-        _WD['pid'] = os.getpid()
-        t = threading.Thread(target=_watchdog_loop, name='z3-deadline', daemon=True)
-        t.start()
-    _WD['ctx'] = ctx_ref
-    _WD['deadline'] = time.time() + seconds
-
-
 class Obligation:
     __slots__ = ('name', 'hyps', 'goal', 'kind', 'path', 'note', 'uid', 'unit')
 
@@ -137,21 +111,18 @@ class Ctx:
 
     @staticmethod
     def _check(sol, seconds=4.0):
-        """sol.check() with a hard deadline: z3 sometimes ignores its `timeout` / `rlimit` parameters inside quantifier instantiation (seen:
-        a helper query of the path-feasibility solver ran for more than half an hour).  A timer thread interrupts the context; an
-        interrupted query counts as 'unknown' (callers treat unknown as "feasible" / "not entailed": only adds paths or obligations).
+        """sol.check() of a helper query (path feasibility / quick entailment); every such solver carries z3's own `timeout` and `rlimit`.
+        An exception of the solver counts as 'unknown' (callers treat unknown as "feasible" / "not entailed": only adds paths or obligations).
 
-        The watchdog is ONE daemon thread per process that holds nothing but the raw context pointer and calls nothing but Z3_interrupt
-        (the only z3 entry point that may be called from another thread).  It must never own a reference to a z3 Python object: a
-        Timer per query holding `sol` released solvers from the timer thread, concurrently with the main thread's z3 calls, and
-        segfaulted libz3 in pool workers (which then dead-locked the pool on the task-queue lock the dead worker held)."""
-        _watchdog_arm(sol.ctx.ref(), seconds)
+        No thread-based deadline: two forms were tried after a refactoring probe made the engine loop (10.6) - a Timer per query, which
+        released z3 objects from the timer thread and segfaulted libz3 in pool workers, and a single interrupt-only watchdog thread, after
+        which the MAIN process segfaulted in Z3_del_context at interpreter exit in about one run of ten (exit 139 on the unchanged tree;
+        none in thirty runs without the thread).  z3's Python API and a second Python thread do not mix.  A query that really does not
+        return is bounded from outside instead: the pool delivers nothing, and `_collect` (vf/report.py) ends the run as a checker error."""
         try:
             return sol.check()
         except z3.Z3Exception:
             return z3.unknown
-        finally:
-            _WD['deadline'] = None
 
     def feasible(self, extra):
         extra = _linearize(extra)
